@@ -40,7 +40,7 @@ OpenReason(ev) ==
   ELSE IF ev.res # "ok" THEN "written-" \o disk[ev.file].fmt \o "-file-cannot-be-read-back"
   ELSE IF ~ev.grid THEN "ok"
   ELSE IF ev.fps # disk[ev.file].fps THEN "frame-rate"
-  ELSE Content(ev, disk[ev.file].cues, disk[ev.file].fmt)
+  ELSE Content(ev, IF ev.ign /\ ev.ext = "stl" THEN disk[ev.file].raw ELSE disk[ev.file].cues, disk[ev.file].fmt)
 
 OpReason(ev) ==
   IF ev.res # "ok" THEN "op-" \o ev.name \o "-" \o ev.res
@@ -88,7 +88,7 @@ Init == l = 1 /\ disk = <<>> /\ mem = <<>> /\ fps = 0 /\ res = "ok" /\ second = 
 SourceStep(ev) ==
   LET d0 == IF ev.first THEN <<>> ELSE disk
       inScope == ev.res = "ok" /\ ev.grid
-  IN  /\ disk' = (ev.file :> [fmt |-> ev.fmt, cues |-> ToCues(ev.cues), fps |-> ev.fps]) @@ d0
+  IN  /\ disk' = (ev.file :> [fmt |-> ev.fmt, cues |-> ToCues(ev.cues), fps |-> ev.fps, raw |-> ToCues(ev.raw)]) @@ d0
       /\ scope' = IF ev.first THEN inScope ELSE scope /\ inScope
       /\ norep' = IF ev.first THEN SeqSet(ev.norep) ELSE norep \cup SeqSet(ev.norep)
       /\ swap' = IF ev.first THEN ev.swap ELSE swap \o ev.swap
@@ -103,7 +103,11 @@ OpenStep(ev) ==
      ELSE second' = (IF ev.res = "ok" THEN ToCues(ev.cues) ELSE <<>>) /\ UNCHANGED <<mem, fps>>
   /\ res' = ev.res
   /\ scope' = (scope /\ ev.grid)
-  /\ UNCHANGED <<disk, norep, ties, swap>>
+  \* the file's denotation is re-bound to what was observed (a deviation has been reported by OpenReason; the rest of
+  \* the history is judged from the state the implementation is really in)
+  /\ disk' = IF ev.res = "ok" /\ ev.file \in DOMAIN disk /\ disk[ev.file] # Blank /\ ev.grid /\ ~ev.ign
+             THEN [disk EXCEPT ![ev.file].cues = ToCues(ev.cues)] ELSE disk
+  /\ UNCHANGED <<norep, ties, swap>>
 
 OpStep(ev) ==
   /\ mem' = ToCues(ev.cues)
